@@ -47,6 +47,65 @@ Lemma cas_expected_is_read :
                                  fst (ncas (P_disp_cas st cc ne nc d l cf ck) 1) = cc).
 Proof. repeat split. Qed.
 
+
+(* ---- Part A': every generated branch condition is the condition Rc.micro branches on, or its negation
+   (uniformly in the word observed): a refactoring that swaps the branches of an `if` or turns a nested `if` into an
+   early return keeps these lemmas; a change of WHAT is tested (another field, another operand, another constant,
+   the word of another access) breaks them *)
+Definition same_test {A} (c m : A -> bool) : Prop := (forall a, c a = m a) \/ (forall a, c a = negb (m a)).
+
+Lemma strong_nonneg w : 0 <= strong w.
+Proof. unfold strong, wrap. apply Z.mod_pos_bound. reflexivity. Qed.
+Lemma weak_nonneg w : 0 <= weak w.
+Proof. unfold weak, wrap. apply Z.mod_pos_bound. reflexivity. Qed.
+
+Ltac decide_tests :=
+  unfold from_raw, as_raw; rewrite ?Z.gtb_ltb, ?Z.geb_leb;
+  repeat match goal with
+         | |- context [strong ?x] => lazymatch goal with H : 0 <= strong x |- _ => fail | _ => pose proof (strong_nonneg x) end
+         | |- context [weak ?x] => lazymatch goal with H : 0 <= weak x |- _ => fail | _ => pose proof (weak_nonneg x) end
+         end;
+  repeat match goal with
+         | |- context [Z.eqb ?a ?b] => destruct (Z.eqb_spec a b)
+         | |- context [Z.ltb ?a ?b] => destruct (Z.ltb_spec a b)
+         | |- context [Z.leb ?a ?b] => destruct (Z.leb_spec a b)
+         | |- context [destructed ?x] => destruct (destructed x)
+         | |- context [weaked ?x] => destruct (weaked x)
+         | |- context [if ?b then _ else _] => destruct b
+         end;
+  cbn [negb andb orb]; try reflexivity; exfalso; unfold from_raw in *; lia.
+Ltac same_test_tac := unfold same_test, nb; first [ left; intros; cbn [nth fst snd]; solve [decide_tests] | right; intros; cbn [nth fst snd]; solve [decide_tests] ].
+
+Lemma test_incs :
+  same_test (fun v => nb (P_incs_conds v) 0) destructed /\ same_test (fun v => nb (P_incs_conds v) 1) (fun v => strong v =? 0) /\
+  same_test (fun v => nb (P_incs_conds v) 2) destructed /\ same_test (fun v => nb (P_incs_conds v) 3) (fun v => strong v =? 0).
+Proof. unfold P_incs_conds. repeat split; same_test_tac. Qed.
+Lemma test_tde : same_test (fun w => nb (P_tde_conds w) 0) (fun w => 0 <? weak w).
+Proof. unfold P_tde_conds. same_test_tac. Qed.
+(* increment_weak: the loop tests the WEAKED flag of the word read; the token test looks at the word the fetch_add returned *)
+Lemma test_incw :
+  same_test (fun a : Z * Z * Z => nb (P_incw_conds (fst (fst a)) (snd (fst a)) (snd a)) 0) (fun a => weaked (fst (fst a))) /\
+  same_test (fun a : Z * Z * Z => nb (P_incw_conds (fst (fst a)) (snd (fst a)) (snd a)) 1) (fun a => weak (snd a) =? 0).
+Proof. unfold P_incw_conds. split; same_test_tac. Qed.
+Lemma test_decw : same_test (fun f => nb (P_decw_conds f) 0) (fun f => weak f =? 1).
+Proof. unfold P_decw_conds. same_test_tac. Qed.
+Lemma test_isnd :
+  same_test (fun a : Z * Z => nb (P_isnd_conds (fst a) (snd a)) 0) (fun a => destructed (fst a)) /\
+  same_test (fun a : Z * Z => nb (P_isnd_conds (fst a) (snd a)) 1) (fun a => strong (fst a) =? 0).
+Proof. unfold P_isnd_conds. split; same_test_tac. Qed.
+Lemma test_decs : same_test (fun a : Z * Z * Z => nb (P_decs_breaks (fst (fst a)) (snd (fst a)) (snd a)) 0) (fun a => strong (fst (fst a)) =? snd (fst a)).
+Proof. unfold P_decs_breaks. same_test_tac. Qed.
+Lemma test_td : same_test (fun o => nb (P_td_conds o) 0) (fun o => 0 <? strong o).
+Proof. unfold P_td_conds. same_test_tac. Qed.
+Lemma test_disp st cc ne nc l :
+  same_test (fun d => nb (P_disp_conds st cc ne nc d l false false) 0) (fun d => d >=? DEPTH_CAP) /\
+  same_test (fun d => nb (P_disp_conds st cc ne nc d l false false) 1) (fun d => 0 <? d) /\
+  same_test (fun a : Z * bool => nb (P_disp_conds (fst a) cc ne nc 0 l (snd a) false) 2) (fun a => negb (strong (fst a) =? 0) || snd a) /\
+  same_test (fun w => nb (P_disp_conds st cc ne nc 0 w false false) 3) weaked /\
+  same_test (fun b : bool => nb (P_disp_conds st cc ne nc 0 l false b) 4) (fun b => b) /\
+  same_test (fun n => nb (P_disp_conds st cc ne n 0 l false false) 5) (fun n => strong n =? 0).
+Proof. unfold P_disp_conds, DEPTH_CAP. repeat split; same_test_tac. Qed.
+
 (* ---- Part B: Rc.micro, frame by frame, in the generated terms *)
 Ltac start Ht Hf := unfold micro; rewrite Ht, Hf.
 
@@ -61,8 +120,8 @@ Lemma proto_incs100 o c ob :
   micro s t rec =
     let w := word ob in
     let w' := fadd w (nz (P_incs_adds w) 0) in
-    if nb (P_incs_conds w) 0 then ret (seto s o (with_word ob w')) x (FRet c false :: k) [100; zo o; 0; 1000; zo o; w]
-    else if nb (P_incs_conds w) 1 then ret (seto s o (with_tok (with_word ob w') true)) x (FIncS101 o c :: k) [100; zo o; 0; 1000; zo o; w]
+    if destructed w then ret (seto s o (with_word ob w')) x (FRet c false :: k) [100; zo o; 0; 1000; zo o; w]
+    else if (strong w =? 0) then ret (seto s o (with_tok (with_word ob w') true)) x (FIncS101 o c :: k) [100; zo o; 0; 1000; zo o; w]
     else ret (seto s o (with_word ob w')) x (FRet c true :: k) [100; zo o; 0; 1000; zo o; w].
 Proof. intros Hf Ho. start Ht Hf. rewrite Ho. reflexivity. Qed.
 
@@ -72,8 +131,8 @@ Lemma proto_incs101 o c ob :
   micro s t rec =
     let w := word ob in
     let w' := fadd w (nz (P_incs_adds w) 1) in
-    if nb (P_incs_conds w) 2 then ret (seto s o (with_word ob w')) x (FRet c false :: k) [101; zo o; 0; 1001; zo o; w]
-    else if nb (P_incs_conds w) 3 then ret (seto s o (with_word ob w')) x (FRet c true :: k) [101; zo o; 0; 1001; zo o; w]
+    if destructed w then ret (seto s o (with_word ob w')) x (FRet c false :: k) [101; zo o; 0; 1001; zo o; w]
+    else if negb (strong w =? 0) then ret (seto s o (with_word ob w')) x (FRet c true :: k) [101; zo o; 0; 1001; zo o; w]
     else ret (seto s o (with_tok (with_word ob w') true)) x (FIncS101 o c :: k) [101; zo o; 0; 1001; zo o; w].
 Proof.
   intros Hf Ho. start Ht Hf. rewrite Ho. cbn [nb nz nth P_incs_conds P_incs_adds].
@@ -87,7 +146,7 @@ Lemma proto_decs112 o cnt r cur tmp own ob :
     let ob' := {| word := snd (ncas (P_decs_cas cur cnt r) 0); dropped := dropped ob; freed := freed ob;
                   tok := if own then tok ob else false; wtok := wtok ob; links := links ob |} in
     let s1 := seto s o ob' in
-    let s2 := if nb (P_decs_breaks cur cnt r) 0 then defer s1 KDestruct o else s1 in
+    let s2 := if (strong cur =? cnt) then defer s1 KDestruct o else s1 in
     ret s2 x (if tmp then FUnpinTmp :: k else k) [112; zo o; 0; 1012; zo o; 1].
 Proof. intros Hf Ho Hw. start Ht Hf. rewrite Ho, Hw, Z.eqb_refl. reflexivity. Qed.
 
@@ -96,10 +155,10 @@ Lemma proto_td113 o ob :
   frames x = FTD113 o :: k -> geto s o = Some ob ->
   micro s t rec =
     let w := word ob in
-    if nb (P_td_conds w) 0 then ret s x (FDecS110 o (nz (P_td_redecs w) 0) true false :: k) [113; zo o; 0; 1013; zo o; w]
+    if (0 <? strong w) then ret s x (FDecS110 o (nz (P_td_redecs w) 0) true false :: k) [113; zo o; 0; 1013; zo o; w]
     else ret s x (FTD114 o w :: k) [113; zo o; 0; 1013; zo o; w].
 Proof.
-  intros Hf Ho. start Ht Hf. rewrite Ho. cbn [nb nz nth P_td_conds P_td_redecs]. rewrite Z.gtb_ltb. reflexivity.
+  intros Hf Ho. start Ht Hf. rewrite Ho. cbn [nb nz nth P_td_conds P_td_redecs]. rewrite ?Z.gtb_ltb. reflexivity.
 Qed.
 
 (* try_destruct: the compare_exchange that publishes DESTRUCTED (site 114) *)
@@ -112,26 +171,26 @@ Lemma proto_td114_retry o old ob :
   frames x = FTD114 o old :: k -> geto s o = Some ob -> word ob <> old ->
   micro s t rec =
     let w := word ob in
-    if nb (P_td_conds w) 0 then ret s x (FDecS110 o (nz (P_td_redecs w) 0) true false :: k) [114; zo o; old]
+    if (0 <? strong w) then ret s x (FDecS110 o (nz (P_td_redecs w) 0) true false :: k) [114; zo o; old]
     else ret s x (FTD114 o w :: k) [114; zo o; old].
 Proof.
   intros Hf Ho Hw. start Ht Hf. rewrite Ho. apply Z.eqb_neq in Hw. rewrite Hw.
-  cbn [nb nz nth P_td_conds P_td_redecs]. rewrite Z.gtb_ltb. reflexivity.
+  cbn [nb nz nth P_td_conds P_td_redecs]. rewrite ?Z.gtb_ltb. reflexivity.
 Qed.
 
 (* dispose_general_node: the depth cap *)
-Lemma proto_disp_enter o depth st cc ne nc l cf ck :
+Lemma proto_disp_enter o depth :
   frames x = FDispEnter o depth :: k ->
   micro s t rec =
-    if nb (P_disp_conds st cc ne nc depth l cf ck) 0 then ret (defer s KDestruct o) x k [1020; zo o; depth]
+    if (depth >=? DEPTH_CAP) then ret (defer s KDestruct o) x k [1020; zo o; depth]
     else ret s x (FDisp115 o depth :: k) [1020; zo o; depth].
 Proof. intros Hf. start Ht Hf. reflexivity. Qed.
 
 (* dispose_general_node: a cascade child publishes DESTRUCTED by a zero-observing compare_exchange (site 130) *)
-Lemma proto_disp130 o depth w curr ob cc ne nc l ck :
+Lemma proto_disp130 o depth w curr ob (cc ne nc l : Z) (ck : bool) :
   frames x = FDisp130 o depth w curr :: k -> geto s o = Some ob ->
   micro s t rec =
-    if nb (P_disp_conds w cc ne nc depth l (negb (word ob =? w)) ck) 2
+    if (negb (strong w =? 0) || negb (word ob =? w))
     then ret (defer s KDestruct o) x k [130; zo o; w; 1130; zo o; 0]
     else ret (seto s o (with_word ob (snd (ncas (P_disp_cas w cc ne nc depth l (negb (word ob =? w)) ck) 0)))) x
              (FDispDo o depth w curr :: k) [130; zo o; w].
@@ -141,10 +200,10 @@ Proof.
 Qed.
 
 (* dispose_general_node: release the implicit weak share or free (site 117) *)
-Lemma proto_disp117 o depth ne curr outs ob st cc nep nc cf ck :
+Lemma proto_disp117 o depth ne curr outs ob :
   frames x = FDisp117 o depth ne curr outs :: k -> geto s o = Some ob ->
   micro s t rec =
-    if nb (P_disp_conds st cc nep nc depth (word ob) cf ck) 3
+    if weaked (word ob)
     then ret s x (FDecW107 o false true :: FKids depth ne curr outs :: k) [117; zo o; 0]
     else ret (seto s o {| word := word ob; dropped := dropped ob; freed := true; tok := tok ob; wtok := wtok ob; links := links ob |}) x
              (FKids depth ne curr outs :: k) [117; zo o; 0; 1100; zo o; 0].
@@ -164,7 +223,7 @@ Lemma proto_kid119_ok c wc nxt depth ne curr outs ob st cc nep l cf ck :
   frames x = FKid119 c wc nxt depth ne curr outs :: k -> geto s (fst c) = Some ob -> word ob = wc -> 0 <= depth < 2 ^ 63 ->
   micro s t rec =
     let s1 := seto s (fst c) (with_word ob nxt) in
-    if nb (P_disp_conds st cc nep nxt depth l cf ck) 5
+    if (strong nxt =? 0)
     then ret s1 x (FDispEnter (fst c) (nz (P_disp_depths st cc nep nxt depth l cf ck) 0) :: FKids depth ne curr outs :: k)
              [119; zo (fst c); nxt; 1019; zo (fst c); 1]
     else ret s1 x (FKids depth ne curr outs :: k) [119; zo (fst c); nxt; 1019; zo (fst c); 1].
@@ -183,7 +242,7 @@ Lemma proto_decw107 o tmp own ob :
     let ob' := {| word := fsub w (nz (P_decw_subs w) 0); dropped := dropped ob; freed := freed ob; tok := tok ob;
                   wtok := if own then wtok ob else false; links := links ob |} in
     let s1 := seto s o ob' in
-    let s2 := if nb (P_decw_conds w) 0 then defer s1 KDealloc o else s1 in
+    let s2 := if (weak w =? 1) then defer s1 KDealloc o else s1 in
     ret s2 x k [107; zo o; 0].
 Proof. intros Hf Ho. start Ht Hf. rewrite Ho. reflexivity. Qed.
 
@@ -191,17 +250,17 @@ Proof. intros Hf Ho. start Ht Hf. rewrite Ho. reflexivity. Qed.
 Lemma proto_tde102 o ob :
   frames x = FTDe102 o :: k -> geto s o = Some ob ->
   micro s t rec =
-    if nb (P_tde_conds (word ob)) 0 then ret s x (FDecW107 o true false :: k) [102; zo o; 0]
+    if (0 <? weak (word ob)) then ret s x (FDecW107 o true false :: k) [102; zo o; 0]
     else ret (seto s o {| word := word ob; dropped := dropped ob; freed := true; tok := tok ob; wtok := wtok ob; links := links ob |}) x k
              [102; zo o; 0; 1100; zo o; 0].
-Proof. intros Hf Ho. start Ht Hf. rewrite Ho. cbn [nb nth P_tde_conds]. rewrite Z.gtb_ltb. reflexivity. Qed.
+Proof. intros Hf Ho. start Ht Hf. rewrite Ho. cbn [nb nth P_tde_conds]. rewrite ?Z.gtb_ltb. reflexivity. Qed.
 
 (* increment_weak: the load (site 103) and the first-weak compare_exchange (site 104) *)
-Lemma proto_incw103 o cnt ob f :
+Lemma proto_incw103 o cnt ob :
   frames x = FIncW103 o cnt :: k -> geto s o = Some ob ->
   micro s t rec =
     let w := word ob in
-    if nb (P_incw_conds w cnt f) 0 then ret s x (FIncW104 o cnt w :: k) [103; zo o; 0; 1003; zo o; w]
+    if negb (weaked w) then ret s x (FIncW104 o cnt w :: k) [103; zo o; 0; 1003; zo o; w]
     else ret s x (FIncW105 o cnt :: k) [103; zo o; 0; 1003; zo o; w].
 Proof.
   intros Hf Ho. start Ht Hf. rewrite Ho. cbn [nb nth P_incw_conds]. destruct (weaked (word ob)); reflexivity.
@@ -212,11 +271,11 @@ Lemma proto_incw104_ok o cnt old ob f :
   micro s t rec = ret (seto s o (with_word ob (snd (ncas (P_incw_cas old cnt f) 0)))) x k [104; zo o; 0].
 Proof. intros Hf Ho Hw. start Ht Hf. rewrite Ho, Hw, Z.eqb_refl. reflexivity. Qed.
 
-Lemma proto_incw104_retry o cnt old ob f :
+Lemma proto_incw104_retry o cnt old ob :
   frames x = FIncW104 o cnt old :: k -> geto s o = Some ob -> word ob <> old ->
   micro s t rec =
     let w := word ob in
-    if nb (P_incw_conds w cnt f) 0 then ret s x (FIncW104 o cnt w :: k) [104; zo o; 0]
+    if negb (weaked w) then ret s x (FIncW104 o cnt w :: k) [104; zo o; 0]
     else ret s x (FIncW105 o cnt :: k) [104; zo o; 0].
 Proof.
   intros Hf Ho Hw. start Ht Hf. rewrite Ho. apply Z.eqb_neq in Hw. rewrite Hw.
@@ -229,7 +288,7 @@ Lemma proto_incw105 o cnt ob old :
   micro s t rec =
     let w := word ob in
     let w' := fadd w (nz (P_incw_adds old cnt w) 0) in
-    if nb (P_incw_conds old cnt w) 1
+    if (weak w =? 0)
     then ret (seto s o {| word := w'; dropped := dropped ob; freed := freed ob; tok := tok ob; wtok := true; links := links ob |})
              x (FIncW106 o :: k) [105; zo o; cnt]
     else ret (seto s o (with_word ob w')) x k [105; zo o; cnt].
@@ -245,7 +304,7 @@ Lemma proto_isnd109_ok o old r c ob :
   frames x = FIsND109 o old r c :: k -> geto s o = Some ob -> word ob = old ->
   micro s t rec =
     let ob' := {| word := snd (ncas (P_isnd_cas old r) 0); dropped := dropped ob; freed := freed ob;
-                  tok := if nb (P_isnd_conds old r) 1 then true else tok ob; wtok := wtok ob; links := links ob |} in
+                  tok := if (strong old =? 0) then true else tok ob; wtok := wtok ob; links := links ob |} in
     ret (seto s o ob') x (FRet c true :: k) [109; zo o; old].
 Proof. intros Hf Ho Hw. start Ht Hf. rewrite Ho, Hw, Z.eqb_refl. reflexivity. Qed.
 
@@ -253,7 +312,7 @@ Lemma proto_isnd109_retry o old r c ob :
   frames x = FIsND109 o old r c :: k -> geto s o = Some ob -> word ob <> old ->
   micro s t rec =
     let w := word ob in
-    if nb (P_isnd_conds w r) 0 then ret s x (FIsND109 o w r c :: k) [109; zo o; old]
+    if negb (destructed w) then ret s x (FIsND109 o w r c :: k) [109; zo o; old]
     else ret s x (FRet c false :: k) [109; zo o; old].
 Proof.
   intros Hf Ho Hw. start Ht Hf. rewrite Ho. apply Z.eqb_neq in Hw. rewrite Hw.
